@@ -107,6 +107,12 @@ def gen_cases(ctx):
             datefmt = ("DateENlong", "DateDEshort")[idx - 8]
             if datefmt.endswith("short") and not (1951 <= sy and end.year + 2 <= 2049):
                 datefmt = "DateENlong"
+        peryear = idx % 4 == 3
+        if idx == 3:       # per-year weather files over seven years with leap years inside: JTAG (hence the day of the yearly record) must follow every file
+            sy = rnd.choice([2009, 1977, 1993])
+            start, end = D(sy, rnd.randrange(2, 11), rnd.randrange(1, 28)), D(sy + 7, rnd.randrange(1, 12), rnd.randrange(1, 28))
+            ann = D(end.year, 9, 30)
+            peryear = True
         if idx == 0:       # the shipped ex3 pattern (F16): annual date 31 Oct, non-leap end year, leap years inside
             sy, start, end, ann = 1980, D(1980, 9, 30), D(1985, 12, 31), D(1985, 10, 31)
         eff = ann + ONE if ann >= end else end
@@ -133,14 +139,14 @@ def gen_cases(ctx):
             earlier = ("longer",)
         elif idx % 5 == 4:
             earlier = rnd.choice([("same",), ("longer", "same"), ("longer", "longer")])
-        cases.append({"idx": idx, "datefmt": datefmt, "earlier": earlier, "sy": sy, "start": start, "end": end, "ann": ann, "eff": eff, "k": k, "csv": csv, "rot": rot,
+        cases.append({"idx": idx, "peryear": peryear, "datefmt": datefmt, "earlier": earlier, "sy": sy, "start": start, "end": end, "ann": ann, "eff": eff, "k": k, "csv": csv, "rot": rot,
                       "daily": daily, "yearly": yearly, "crop": crop, "spec": (dspec, yspec, cspec), "unsupported": unsupported})
     return cases
 
 
 def _describe(cs):
     return ("case %d%s%s start=%s EndDate=%s annual=%s OutputIntervall=%d ResultFileFormat=%d rotation harvests=%s columns=%d/%d/%d"
-            % (cs["idx"], (" Dateformat=%s" % cs["datefmt"]) if cs.get("datefmt", "DateDElong") != "DateDElong" else "", (" [after %s run(s) into the same result folder: %s]" % (len(cs["earlier"]), "+".join(cs["earlier"]))) if cs.get("earlier") else "", cs["start"], cs["end"], cs["ann"], cs["k"], 1 if cs["csv"] else 0,
+            % (cs["idx"], ((" Dateformat=%s" % cs["datefmt"]) if cs.get("datefmt", "DateDElong") != "DateDElong" else "") + (" WeatherFileFormat=0" if cs.get("peryear") else ""), (" [after %s run(s) into the same result folder: %s]" % (len(cs["earlier"]), "+".join(cs["earlier"]))) if cs.get("earlier") else "", cs["start"], cs["end"], cs["ann"], cs["k"], 1 if cs["csv"] else 0,
                [str(h) for _, _, h in cs["rot"]], len(cs["daily"]), len(cs["yearly"]), len(cs["crop"])))
 
 
@@ -192,12 +198,14 @@ def _run(ctx):
     for d, r in ser:
         if d in harvest_days:
             r["prec"] = rnd.choice(["95.0", "160.0", "61.5"])
-    wcfg = wxlib.write_weather(root, "w", 1, "WX", ser)
+    wcfg1 = wxlib.write_weather(root, "w", 1, "WX", ser)
+    wcfg0 = wxlib.write_weather(root, "w0", 0, "WX", ser)       # the same series as one file per year (layout 0)
     lines, owner = [], []
     for c in cases:
         p = "r%03d" % c["idx"]
         dfm = c.get("datefmt", "DateDElong")
-        cfg = dict(wcfg, WeatherFolder="w", StartYear=c["sy"], EndDate=wxlib.fdate(c["end"], dfm), Dateformat=dfm, DivideCentury=50,
+        wcfg, wfolder = (wcfg0, "w0") if c.get("peryear") else (wcfg1, "w")
+        cfg = dict(wcfg, WeatherFolder=wfolder, StartYear=c["sy"], EndDate=wxlib.fdate(c["end"], dfm), Dateformat=dfm, DivideCentury=50,
                    AnnualOutputDate=wxlib.fannual(c["ann"], dfm), OutputIntervall=c["k"],
                    ResultFileFormat=1 if c["csv"] else 0, ETpot=rnd.choice([1, 2, 3, 4]))
         # a used result folder: one or two earlier runs into the SAME folder (same file names), longer / more records or
@@ -280,6 +288,7 @@ def correspond(ctx):
         c.nontrivial += len(o["V"]) + len(o["Y"]) + len(o["C"])
         c.bump("csv" if cs["csv"] else "fixed-width"); c.bump("interval-1" if cs["k"] == 1 else "interval>1")
         c.bump("rotation-%d" % len(cs["rot"]))
+        c.bump("weather-per-year-files" if cs.get("peryear") else "weather-multi-year-file")
         if cs.get("earlier"):
             c.bump("after-earlier-runs-into-the-same-result-folder"); c.bump("earlier-" + "+".join(cs["earlier"]))
     hdr = ["From Coq Require Import ZArith List Bool Uint63.", "From Hermes Require Import CtrlModel C04Corr.",
@@ -334,6 +343,8 @@ def generate(ctx):
     cfgs = outfmtlib.translate(ctx)
     _cache["gen_names"] = outfmtlib.write_gen(ctx, cfgs)
     _cache["gen_errors"] = [k for k in cfgs if "error" in cfgs[k]]
+    rows = outfmtlib.scan_strings(ctx)
+    _cache["gen_texts"], _cache["gen_dynamic"] = outfmtlib.write_strings_gen(ctx, cfgs, rows)
 
 
 def gen_proofs(ctx):
@@ -356,6 +367,16 @@ def gen_proofs(ctx):
                                                            "current source) no longer checks: " + out[-1500:]})
         return len(names), 0, broken, names
     ctx.extra["output_configurations_checked"] = len(_cache.get("gen_names", []))
+    # texts that can reach a text column: no separator, no line break
+    names = names + ["text_sources_sepfree"]
+    rc, out = ctx.coqc(os.path.join(ctx.gen, "OutFmtStrings.v"), timeout=600)
+    if rc or out.count("Closed under the global context") != 1:
+        bad = [(a, b, c_) for a, b, c_ in _cache.get("gen_texts", []) if any(ch in b for ch in ",;\n\r")]
+        broken.append({"stage": "generated-proof", "what": "a text the source assigns to a text output column contains a CSV separator or a line break: "
+                       + "; ".join("%s = %r (%s)" % x for x in bad[:5]) + " | " + out[-600:]})
+        return len(names), len(names) - 1, broken, names
+    ctx.extra["text_sources_checked"] = len(_cache.get("gen_texts", []))
+    ctx.extra["text_sources_dynamic_not_checked"] = _cache.get("gen_dynamic", [])[:40]
     return len(names), len(names), broken, names
 
 
@@ -459,6 +480,24 @@ def oracle(ctx, search):
     fm, ff, fst = c05fmtlib.check(ctx)
     for key, what in ff:
         fails.append(Fail(key=key, what=what))
+    # the one text no example run shows: the instability flag of the nitrate transport, produced by the real nmove on a crafted
+    # state and written in the CSV style with every configuration of the source
+    tr = outfmtlib.unstable_text_records(ctx, os.path.join(ctx.work, "c05text"))
+    if not tr.get("C1NotStableErr"):
+        fails.append(Fail(key="instability-text-not-produced", what="the crafted transport step was not flagged as unstable (harness c05text)"))
+    ntext = 0
+    for r in tr.get("records", []):
+        if r.get("err"):
+            fails.append(Fail(key="text-record:%s" % r["config"], what="record not written: %s" % r["err"])); continue
+        sep = (r.get("sep") or ",")[:1]
+        body = r["line"].rstrip("\r\n")
+        got = len(body.split(sep)) if "\n" not in body else -1
+        ntext += 1
+        if got != r["ncols"]:
+            fails.append(Fail(key="text-field-with-separator:%s" % r["config"],
+                              what="CSV record with the instability text %r has %d fields, the configuration defines %d columns: %r"
+                                   % (tr.get("C1NotStableErr"), got, r["ncols"], body[:200])))
+    ctx.extra["oracle_text_records_checked"] = ntext
     ctx.extra["oracle_formatted_fields_checked"] = fst["fields"]
     ctx.extra["fixed_width_lines_not_positional"] = fst["overflows"]
     return fails
